@@ -126,3 +126,47 @@ is_filter_empty = function(
          'mem(filter_like, other(filter_like.deny.s))', 'mem(filter_like, fresh(filter_like.deny.set))'],
   bindings=B, props=('C14',))
 B['is_filter_empty'] = is_filter_empty
+
+# ---- group_collections: first-match partition of the collections by a list of filters ------------------
+CollTree = opaque('CollectionTree', is_str=False, universe=['tree0', 'tree1'])
+XS = MapOf(Name, CollTree)
+Filters = SeqOf(Filter)
+Groups = SeqOf(XS)
+tree_copy = UFn('tree_map_identity', [CollTree], CollTree, 'jax.tree_util.tree_map(lambda x: x, t): structurally equal copy', native=lambda t: t)
+
+
+def _first(g, c='c', fs='col_filters'):
+  return f"(mem({fs}[{g}], {c}) and forall(Int, lambda jj: implies(0 <= jj and jj < {g}, not mem({fs}[jj], {c}))))"
+
+
+GC_B = dict(B)
+GC_B['jax.tree_util.tree_map'] = Handler('jax.tree_util.tree_map', lambda ex, a, kw: ex.call_value(tree_copy, [a[1]], {}), 'tree_map(lambda x: x, t) is a copy of t')
+UNMATCHED = "forall(Int, lambda jj: implies(0 <= jj and jj < %s, not mem(col_filters[jj], %s)))"
+group_collections = function(
+  F + '::group_collections', params=[('xs', XS), ('col_filters', Filters)], returns=Groups,
+  ensures=[
+    'len(result) == len(col_filters)',
+    # every collection lands in the group of the FIRST filter that matches it, and in no other
+    f"forall(Int, Name, lambda g, c: implies(0 <= g and g < len(col_filters), (c in result[g]) == (c in xs and {_first('g')})))",
+    "forall(Int, Name, lambda g, c: implies(0 <= g and g < len(col_filters) and c in result[g], result[g][c] == tree_map_identity(xs[c])))",
+  ],
+  invariants={
+    0: [  # for col_filter in col_filters
+      'len(groups) == _k',
+      f"forall(Int, Name, lambda g, c: implies(0 <= g and g < _k, (c in groups[g]) == (c in xs and {_first('g')})))",
+      "forall(Int, Name, lambda g, c: implies(0 <= g and g < _k and c in groups[g], groups[g][c] == tree_map_identity(xs[c])))",
+      # `cols`: exactly the collections matched by none of the filters processed so far
+      f"forall(Int, lambda i: implies(0 <= i and i < len(cols), cols[i] in xs and {UNMATCHED % ('_k', 'cols[i]')}))",
+      f"forall(Name, lambda c: implies(c in xs and {UNMATCHED % ('_k', 'c')}, exists(Int, lambda i: 0 <= i and i < len(cols) and cols[i] == c)))",
+    ],
+    1: [  # for col in cols
+      f"forall(Name, lambda c: (c in group) == exists(Int, lambda i: 0 <= i and i < _k and _at(i) == c and mem(col_filter, c)))",
+      "forall(Name, lambda c: implies(c in group, group[c] == tree_map_identity(xs[c])))",
+      "forall(Int, lambda i: implies(0 <= i and i < len(remaining_cols), exists(Int, lambda q: 0 <= q and q < _k and _at(q) == remaining_cols[i] and not mem(col_filter, remaining_cols[i]))))",
+      "forall(Int, lambda q: implies(0 <= q and q < _k and not mem(col_filter, _at(q)), exists(Int, lambda i: 0 <= i and i < len(remaining_cols) and remaining_cols[i] == _at(q))))",
+    ]},
+  bindings=GC_B, props=('C14', 'C05'),
+  native=NH('flax.core.scope', 'group_collections', call=lambda fn, c: fn(c['xs'], [Filter.concretise(f) for f in c['col_filters']]) if False else fn(c['xs'], list(c['col_filters']))))
+group_collections.locals = {'groups': Groups, 'remaining_cols': SeqOf(Name), 'group': XS, 'cols': SeqOf(Name)}
+Groups.abstract = lambda py: tuple(dict(g) for g in py)
+B['group_collections'] = group_collections
